@@ -114,6 +114,10 @@ func main() {
 			}
 			affDump(m, parts[0], recv, parts[len(parts)-1])
 		}
+	case "corpus-one":
+		r := corpusOne(*verif, *repo, *file, *name, strings.Split(*rule, ","))
+		b, _ := json.Marshal(r)
+		fmt.Println(string(b))
 	case "selftest-one":
 		r := selftestOne(*verif, *repo, *name)
 		b, _ := json.Marshal(r)
